@@ -99,12 +99,12 @@ def write_rendering(workdir, schema, v, r):
     order = order_of(r, len(sch["types"]))
     if r["fmt"] == "sdl":
         p = os.path.join(workdir, "s_%s.graphql" % key)
-        text = render.sdl(sch, order=order, fold_extensions=r["fold"], declare_builtins=r["builtins"])
+        text = render.sdl(sch, order=order, fold_extensions=r["fold"], declare_builtins=r["builtins"], docs=r.get("docs", False))
     else:
         p = os.path.join(workdir, "s_%s.json" % key)
         text = render.introspection_json(sch, order=order, wrapped=(r["fmt"] == "wrapped"),
                                          include_builtins=r["builtins"],
-                                         include_introspection_types=r["introTypes"], sparse=r["sparse"])
+                                         include_introspection_types=r["introTypes"], sparse=r["sparse"], docs=r.get("docs", False))
     vlib.write_if_changed(p, text)
     return p
 
@@ -208,7 +208,7 @@ def main(tier, replay=None, selftest=False):
         sub = {"Person": " { id }", "Node": " { __typename id }", "Pet": " { __typename }"}.get(v["pxBase"], "")
         for order in ("decl", "reversed", "rotated"):
             r = {"fmt": "sdl", "order": order, "builtins": False, "introTypes": False, "roots": "explicit",
-                 "fold": True, "sparse": False}
+                 "fold": True, "sparse": False, "docs": False}
             jid = "x|%s|%s" % (vlib.stable_hash(v), order)
             jobs.append({"id": jid, "schema_path": write_rendering(workdir, sch, v, r), "query": KITCHEN % sub,
                          "options": {"mode": "cli"}, "want_tokens": False, "want_inventory": True})
@@ -244,7 +244,7 @@ def main(tier, replay=None, selftest=False):
             what = "messages differ: %s vs %s" % (ra.get("msg", "")[:150], rb.get("msg", "")[:150])
         else:
             what += ": %s | %s" % ((ra.get("msg") or "")[:150], (rb.get("msg") or "")[:150])
-        feature = "+".join("%s=%s" % (k, c["b"][k]) for k in ("fmt", "builtins", "introTypes", "roots", "fold", "sparse")
+        feature = "+".join("%s=%s" % (k, c["b"][k]) for k in ("fmt", "builtins", "introTypes", "roots", "fold", "sparse", "docs")
                            if c["b"][k] != c["a"][k])
         ck.violation("pair-%s" % vlib.stable_hash([c, text]),
                      {"variant": c["variant"], "a": c["a"], "b": c["b"], "schema_a": path, "schema_b": pb,
